@@ -924,7 +924,7 @@ func TestTripleQuoteDelimiters(t *testing.T) {
 				}
 			}
 			closer := string(cl)
-			for _, body := range []string{"", "a", "a\nb", "é", " ", "\\"} {
+			for _, body := range []string{"", "a", "a\nb", "é", " ", "\\", "a\nb\r", "\r", "x\ty\r", "a\r\nb\r", "\n\r"} {
 				for _, tail := range []string{"", "\n", "\ny = 2"} {
 					src := "x = " + open + body + closer + tail
 					node, _, bad := observeFirst(src)
